@@ -604,7 +604,7 @@ const static unsigned char pstm_s_rmap[64] =
 int32_t pstm_read_radix(psPool_t *pool, pstm_int *a,
     const char *buf, psSize_t len, uint8_t radix)
 {
-    int32_t y;
+    int32_t y, res;
     uint8_t neg;
     unsigned char ch;
 
@@ -652,8 +652,14 @@ int32_t pstm_read_radix(psPool_t *pool, pstm_int *a,
          */
         if (y < radix)
         {
-            pstm_mul_d(a, (pstm_digit) radix, a);
-            pstm_add_d(pool, a, (pstm_digit) y, a);
+            if ((res = pstm_mul_d(a, (pstm_digit) radix, a)) != PSTM_OKAY)
+            {
+                return res;
+            }
+            if ((res = pstm_add_d(pool, a, (pstm_digit) y, a)) != PSTM_OKAY)
+            {
+                return res;
+            }
         }
         else
         {
